@@ -142,9 +142,20 @@ def check_roundtrip(i0: int, i1: int, i2: int, i3: int, i4: int) -> str:
     n = PART['n']
     atomids = [i0, i1, i2, i3, i4][:n]
     mol, keys, inters = build(atomids, n)
+    with no_tracing():
+        before = {t: [(tuple(i.atoms), tuple(i.parameters), dict(i.meta)) for i in lst] for t, lst in mol.interactions.items()}
     out = io.StringIO()
     write_molecule_itp(mol, out)
     text = out.getvalue()
+    again = io.StringIO()
+    write_molecule_itp(mol, again)
+    with no_tracing():
+        after = {t: [(tuple(i.atoms), tuple(i.parameters), dict(i.meta)) for i in lst] for t, lst in mol.interactions.items() if lst}
+        before = {t: lst for t, lst in before.items() if lst}
+    if after != before:
+        return 'writing the ITP changed the molecule held in memory'
+    if str(again.getvalue()) != str(text):
+        return 'writing the same molecule twice gives two different ITPs'
     with no_tracing():       # the text is concrete (only atom ids are symbolic and they are never printed)
         atoms, lines = read_itp(str(text))
     # ---- atoms: numbered 1..N without gaps, every atom once, in atom-id order (ties and id-less atoms in node order)
